@@ -14,8 +14,18 @@ type Value interface{}
 type StructV struct{ F []Value }
 type ArrayV struct{ E []Value } // concrete length
 type SymBytesV struct {         // symbolic-length byte array (object content)
-	Arr *Term
-	Len *Term
+	Arr  *Term
+	Len  *Term
+	Over []overlayRec // block copies / byte stores applied on top of Arr, oldest first
+}
+
+// overlayRec: bytes [Off, Off+N) of the object equal Src[SrcOff ...] (Src evaluated through its
+// own overlays as they were at copy time), or the single byte Val when Src is nil.
+type overlayRec struct {
+	Off, N  *Term
+	Src     *SymBytesV
+	SrcOff  *Term
+	Val     *Term
 }
 type PtrV struct {
 	Obj  *Object // nil => nil pointer
@@ -155,6 +165,7 @@ type State struct {
 	pools       map[string][]Value
 	fixedIdx    int               // concrete re-execution: index of the next fixed nondet value
 	parks       map[int]*parkInfo // copy-on-write
+	maxAlloc    *Term             // largest symbolic-size allocation on this path
 }
 
 type Thread struct {
@@ -191,6 +202,7 @@ func (st *State) clone() *State {
 	n.fr = cloneFrame(st.fr)
 	n.cur, n.stuck = st.cur, st.stuck
 	n.parks = st.parks
+	n.maxAlloc = st.maxAlloc
 	n.preemptLeft = st.preemptLeft
 	n.syncInt = make(map[string]int, len(st.syncInt))
 	for k, v := range st.syncInt {
